@@ -226,6 +226,14 @@ func (self *BinaryConv) unmarshalSingular(ctx context.Context, resp http.Respons
 		message := (*fd).Message()
 		comma := false
 		start := p.Read
+		if l < 0 || l > len(p.Buf)-start {
+			return wrapError(meta.ErrRead, "message length exceeds the buffer", nil)
+		}
+		// repeated and map fields look ahead for their next element up to the end of the
+		// buffer: bound them by the end of this message, or they take in the fields that
+		// follow it in the enclosing message
+		buf := p.Buf
+		p.Buf = buf[:start+l]
 
 		*out = json.EncodeObjectBegin(*out)
 
@@ -261,6 +269,7 @@ func (self *BinaryConv) unmarshalSingular(ctx context.Context, resp http.Respons
 				return unwrapError(fmt.Sprintf("converting field %s of MESSAGE %s failed", fd.Name(), fd.Kind()), err)
 			}
 		}
+		p.Buf = buf
 		*out = json.EncodeObjectEnd(*out)
 	default:
 		return wrapError(meta.ErrUnsupportedType, fmt.Sprintf("unknown descriptor type %s", fd.Type()), nil)
